@@ -41,6 +41,9 @@ def make_case(rng, tier, idx):
     sizes = [int(s) for s in sizes]
     D = int(rng.integers(1, 9)) if rng.random() < 0.8 else int(rng.choice([1, 2]))
     Tn = int(rng.integers(1, 65 if big else 17))
+    if idx % 6 == 5:
+        Tn = int(rng.integers(33, 260))          # realistic numbers of frames (block-wise accumulation, remainders)
+        D = min(D, 4)
     K = int(rng.integers(1, 6))
     kind = str(rng.choice(['none', 'nosrc', 'src', 'src', 'src']))
     normalize = bool(rng.random() < 0.65)
